@@ -127,8 +127,9 @@ func compare(rec *opRec, got *xmltree.Node, streamNS string, s2s bool, local str
 }
 
 type handlerLog struct {
-	mu  sync.Mutex
-	ops []*opRec
+	mu      sync.Mutex
+	ops     []*opRec
+	refused int // handler invocations that first attempted refused writes
 }
 
 func run(c *core.Case) {
@@ -192,6 +193,20 @@ func run(c *core.Case) {
 			Kids: []any{&elem{Name: xml.Name{Space: nsTop, Local: "r"}, Kids: []any{"reply " + marker}}}}
 		var err error
 		switch mode {
+		case "refused+tokens":
+			// a write the encoder refuses (the error is ignored, as a handler that
+			// copies tokens blindly would): it must leave no trace, and the reply
+			// that follows must still be completed as a top-level stanza
+			if ir := t.EncodeToken(xml.EndElement{Name: xml.Name{Local: "iq"}}); ir == nil {
+				c.Violate("wire:HandlerReply:refused-token-accepted", "handler %s: a stray end element was accepted by the handler's encoder", marker)
+			}
+			if ir := t.EncodeToken(xml.StartElement{Attr: []xml.Attr{attr(markAtt, marker)}}); ir == nil {
+				c.Violate("wire:HandlerReply:refused-token-accepted", "handler %s: a start element without a name was accepted by the handler's encoder", marker)
+			}
+			hl.mu.Lock()
+			hl.refused++
+			hl.mu.Unlock()
+			fallthrough
 		case "tokens":
 			rec.want = top.node("")
 			for _, tok := range top.tokens(nil) {
@@ -276,7 +291,7 @@ func run(c *core.Case) {
 	go func() {
 		defer wg.Done()
 		ir := core.NewRand(core.SubSeed(c.Seed, "C05", c.Index, "inject"))
-		modes := []string{"tokens", "encode", "encodeelement", "none"}
+		modes := []string{"tokens", "encode", "encodeelement", "none", "refused+tokens"}
 		for k := 0; k < nInject; k++ {
 			id := fmt.Sprintf("h%d", k)
 			m := modes[ir.Intn(len(modes))]
@@ -352,6 +367,7 @@ func run(c *core.Case) {
 			flat = append(flat, rec)
 		}
 	}
+	c.Count("handler_replies_after_refused_writes", hl.refused)
 	for _, rec := range hl.ops {
 		all[rec.Marker] = rec
 		flat = append(flat, rec)
@@ -525,7 +541,7 @@ func trunc(s string) string {
 
 // Prop returns the C05 check.
 func Prop() *core.Prop {
-	req := []string{"histories", "invalid_argument_calls", "calls_overlapping_another_actor", "elements_spanning_several_writes", "auto_replies", "wire_stanzas"}
+	req := []string{"histories", "invalid_argument_calls", "handler_replies_after_refused_writes", "calls_overlapping_another_actor", "elements_spanning_several_writes", "auto_replies", "wire_stanzas"}
 	for _, e := range []string{"Send", "SendElement", "Encode", "EncodeElement", "TokenWriter", "HandlerReply",
 		"SendIQ", "SendIQElement", "EncodeIQ", "EncodeIQElement", "UnmarshalIQ", "UnmarshalIQElement", "IterIQ", "IterIQElement",
 		"SendMessage", "SendMessageElement", "EncodeMessage", "EncodeMessageElement",
